@@ -136,13 +136,18 @@ def run(tier, seed):
         for c in par.chunks(first, par.WORKERS if kind != "account" else 1):
             shards.append((kind, c))
     res = par.pmap(_shard, shards)
+    roots_of = {}
+    for kind, roots in shards:
+        for r in roots:
+            roots_of[(kind, tuple(r[:1]))] = [list(x) for x in roots]
     per = {k: 0 for k in KINDS}
     violations = []
     for kind, leaves, bad in res:
         per[kind] += leaves
         for chs, what in bad:
             key = f"{kind}:{what.split(' seq1=')[0].split(' value ')[0][:60]}"
-            violations.append({"key": key, "what": f"draws {chs}: {what}", "case": {"kind": kind, "choices": chs}})
+            violations.append({"key": key, "what": f"draws {chs}: {what}", "case": {"kind": kind, "choices": chs},
+                               "alt_cases": [{"kind": kind, "choices": chs, "roots": roots_of[(kind, tuple(chs[:1]))]}]})
     total = sum(per.values())
     if per["init"] < 1000 or per["ping"] < 1000 or per["account"] < 10:
         raise loader.HarnessError(f"the random source of generate() is not owned by the harness (outcome trees: {per})")
@@ -170,5 +175,9 @@ def run(tier, seed):
 
 def replay(case):
     loader.install_shims()
+    if case.get("roots"):
+        # context-dependent outcome (the code under test remembers earlier draws): re-run the whole shard in order
+        _, _, bad = _shard((case["kind"], [list(r) for r in case["roots"]]))
+        return f"draws {bad[0][0]}: {bad[0][1]} (found while re-running its shard of outcomes in order)" if bad else None
     ch = choices.Chooser(list(case["choices"]))
     return run_one(case["kind"], ch)
